@@ -98,6 +98,29 @@ func c17Check(c c17Case, res *engine.JobResult) {
 			}
 		}
 		res.Nontrivial++
+	case "codonseq":
+		want := ""
+		strictOK := true
+		for i := 0; i+3 <= len(c.Input); i += 3 {
+			aa := translateAmbig(c.Input[i : i+3])
+			if aa == 0 {
+				aa = 'X'
+				strictOK = false
+			}
+			want += string(aa)
+		}
+		tl, err := alphabet.Translate(c.Input, false)
+		if err != nil || tl != want {
+			bad("translate-sequence", "Translate(non-strict) = %q,%v want %q", tl, err, want)
+		}
+		ts, errs := alphabet.Translate(c.Input, true)
+		if strictOK && (errs != nil || ts != want) {
+			bad("translate-sequence", "Translate(strict) = %q,%v want %q", ts, errs, want)
+		}
+		if !strictOK && errs == nil {
+			bad("translate-unsound", "Translate(strict) = %q without error although a codon is unresolvable", ts)
+		}
+		res.Nontrivial++
 	case "symbol":
 		ch := c.Input[0]
 		want := c17Comp(ch)
@@ -175,6 +198,19 @@ func c17Check(c c17Case, res *engine.JobResult) {
 		}
 		efr := fr.Encode()
 		erc := efr.ReverseComplement()
+		if g := efr.Decode().Seq; g != strings.ToUpper(s) {
+			bad("revcomp-mutates-input", "EncodedFastaRecord.ReverseComplement changed its receiver's sequence to %q", g)
+		}
+		ecp := efr.Complement()
+		if g := efr.Decode().Seq; g != strings.ToUpper(s) {
+			bad("complement-mutates-input", "EncodedFastaRecord.Complement changed its receiver's sequence to %q", g)
+		}
+		if g := ecp.Complement().Decode().Seq; g != strings.ToUpper(s) {
+			bad("complement-involution", "EncodedFastaRecord.Complement twice = %q", g)
+		}
+		if g := fr.Seq; g != s {
+			bad("revcomp-mutates-input", "FastaRecord methods changed the receiver to %q", g)
+		}
 		if g := erc.Decode().Seq; g != strings.ToUpper(want) {
 			bad("revcomp-encoded", "EncodedFastaRecord.ReverseComplement decodes to %q want %q", g, strings.ToUpper(want))
 		}
@@ -194,7 +230,7 @@ func init() {
 	register(&Prop{
 		ID:    "C17",
 		Level: "model_checking",
-		Rule:  "complete enumeration of a finite domain: all 15^3 IUPAC codons (dictionary, strict and non-strict Translate), all 64^2 unambiguous codon pairs, all 32 accepted characters (complement tables text+encoded, encode/decode in both gap modes, set semantics of the bit encoding against all 32 partners), all strings of length 1..3 over the 32 characters (reverse complement through the string, FastaRecord and EncodedFastaRecord forms). Non-trivial: ambiguous codons, non-ACGT symbols, strings of length >= 2; each case generated once",
+		Rule:  "complete enumeration of a finite domain: all 15^3 IUPAC codons (dictionary, strict and non-strict Translate), all 64^2 unambiguous codon pairs, every 2-codon sequence of any IUPAC codon with a 10-codon menu of resolvable/unresolvable ambiguity codons (both orders) and every 3-codon sequence over the menu, all 32 accepted characters (complement tables text+encoded, encode/decode in both gap modes, set semantics of the bit encoding against all 32 partners), all strings of length 1..3 over the 32 characters (reverse complement through the string, FastaRecord and EncodedFastaRecord forms). Non-trivial: ambiguous codons, non-ACGT symbols, strings of length >= 2; each case generated once",
 		Assumptions: []string{
 			"oracle: IUPAC base sets and NCBI translation table 1 written out independently in harness/ref_iupac.go",
 		},
@@ -255,6 +291,22 @@ func init() {
 					}
 				}
 				res.States = 1 + 64 + 4096
+				// sequences of 2 and 3 codons mixing resolvable and unresolvable ambiguity codons
+				menu := []string{"ATG", "TAA", "GCN", "YTR", "TRA", "ATN", "NNN", "RAY", "MGR", "CTY"}
+				for _, x := range allCodons(iupac15) {
+					for _, y := range menu {
+						c17Check(c17Case{"codonseq", x + y}, res)
+						c17Check(c17Case{"codonseq", y + x}, res)
+					}
+				}
+				for _, x := range menu {
+					for _, y := range menu {
+						for _, z := range menu {
+							c17Check(c17Case{"codonseq", x + y + z}, res)
+						}
+					}
+				}
+				res.States += 2*3375*len(menu) + 1000
 			case job == "symbols":
 				for i := 0; i < len(accepted32); i++ {
 					c := c17Case{"symbol", accepted32[i : i+1]}
